@@ -1,6 +1,7 @@
 import XzVerif.Proofs.Segment
 import XzVerif.Proofs.Tables
 import XzVerif.Proofs.DictCap
+import XzVerif.Proofs.XzRoundTrip
 /-
   C02 — Everything the xz writer emits is a valid .xz file for other implementations.
 
@@ -30,6 +31,14 @@ theorem C02_strict_segment (p : Props) (s : St) (tbl : Tbl) (htbl : tbl.ok)
   intro x body n
   obtain ⟨rd, h1, h2⟩ := segment_roundtrip p true s tbl htbl h ops hops hne
   exact ⟨rd, h1, h2.1, h2.2.1, h2.2.2.1, h2.2.2.2.2.2.2.1, h2.2.2.2.2.2.2.2⟩
+
+/-- The strict reference decoder accepts every well-formed container the model emitter lays out
+    (stream header and footer, block headers, index records, backward size, paddings and checks
+    mutually consistent) and recovers the content. -/
+theorem C02_strict_container (cfgCap : Nat) (s : Xz.Stream) (hok : Xz.StreamOk true s) :
+    (Xz.read true cfgCap false (Xz.emitStream s)).status = .eof ∧
+    (Xz.read true cfgCap false (Xz.emitStream s)).out = Xz.content s :=
+  Xz.read_emitStream true cfgCap s hok (by intro h; cases h)
 
 /-- Every finite table of the Go code that shapes the emitted bits and bytes is the format's. -/
 theorem C02_tables_are_format :
